@@ -31,7 +31,21 @@ Inductive body :=
                                                       acceptable key share; a PSK is selected; server accepts early data *)
 | BFin (vok : bool)                                (* well-formed Finished; vok: verify_data equals the receiver's own value *)
 | BPlain                                           (* body of any other message type that its handler accepts *)
-| BHelloNoCookie.                                  (* DTLS ClientHello with an empty cookie (everything before the cookie well formed) *)
+| BHelloNoCookie                                   (* DTLS ClientHello with an empty cookie (everything before the cookie well formed) *)
+(* OFFERED is not SELECTED.  In [BHello12] / [BHello13] the attributes [resumed] / [psk] say what the server SELECTED; when they are
+   false the ClientHello offered nothing.  The two constructors below are the hellos of a handshake whose ClientHello OFFERED a
+   resumption - a pre_shared_key extension (external identity or ticket) / a session id or a SessionTicket - that the server
+   does NOT take up (unknown identity, ticket sealed under other keys, session no longer cached).  The ClientHello handlers look at
+   such a hello through [sel_view]: what it does next depends on what was selected only (the full handshake of the mode is due). *)
+| BHello13d (hrr : bool)                           (* ClientHello only; early data goes with the selected PSK: none here *)
+| BHello12d (psk dhe : bool).                      (* ClientHello only *)
+Definition sel_view (b : body) : body :=
+  match b with
+  | BHello13d h => BHello13 h false false
+  | BHello12d p d => BHello12 false p d false false
+  | _ => b
+  end.
+Definition offer_declined (b : body) : bool := match b with BHello13d _ | BHello12d _ _ => true | _ => false end.
 (* DTLS: how the message_seq of a handshake message relates to ssl->lastMsn (parseSSLHandshake, sslDecode.c 2127-2158, 2346-2364) *)
 Inductive mcls :=
 | MExp       (* message_seq = lastMsn + 1: the next message of the peer's sequence *)
@@ -201,7 +215,7 @@ Definition step13 (s : hst) (m : hmsg) : hst * out :=
   if negb (check13 (server s) (hs s) t) then fatal s UNEXPECTED
   else if eqb t CH then
     (* first pass without side effects, version negotiation, then the real parse and the flight *)
-    match m_body m with
+    match sel_view (m_body m) with
     | BHello13 h p e =>
         (* early data is accepted only for the selected PSK and never after a HelloRetryRequest (tls13DecodeExt.c 1205-1235, 1652) *)
         let s1 := set_early (set_usingpsk (set_hs (accept s m true) S_RECVD_CH) p) (e && p && negb (hrr s)) in
@@ -318,10 +332,13 @@ Definition handler12 (s : hst) (m : hmsg) : hst * out :=
     end
   else if eqb h CH then
     (* parseClientHello *)
-    match m_body m with
-    | BHello12 r p d _ _ =>
+    match sel_view (m_body m) with
+    | BHello12 r p d tk _ =>
         let s1 := set_dhe (set_psk (set_resumed s r) p) d in
-        if resumed s1 then (set_wsec (wrote (set_hs s1 FIN) CH) true, OAccept true)
+        (* resumed: the request for a client certificate is dropped - the flag itself is cleared when the session id was found in the
+           cache (hsDecode.c 533) and left standing when a ticket was unsealed ([tk]: the session came from a ticket); nothing reads it
+           on the abbreviated path *)
+        if resumed s1 then (set_wsec (wrote (set_hs (set_cauth s1 (tk && cauth s1)) FIN) CH) true, OAccept true)
         else (wrote (set_hs s1 (if cauth s1 then CERT else CKE)) CH, OAccept true)
     | BHelloNoCookie =>
         (* DTLS, not yet protected: HelloVerifyRequest is written, hsState stays CLIENT_HELLO, the session found is cleared again
